@@ -397,6 +397,33 @@ func checkC06(c *Ctx) {
 		}
 		c.Check(setEq(sendFns, []string{shortName(cc)}), "C06.4", "outcomes are sent only by completeCommand", p.FuncPos(cc),
 			"the only send on an error channel in package server is in "+ccName, "sends in: "+join(sendFns))
+		// closing a waiter's channel is an outcome too: the waiting handler receives the zero value, nil, and replies "success"
+		var closes []string
+		for _, fn := range p.ModFuncs {
+			if funcPkgPath(fn) != modPath+"/server" {
+				continue
+			}
+			eachInstr(fn, func(in ssa.Instruction) {
+				var cm *ssa.CallCommon
+				switch x := in.(type) {
+				case *ssa.Call:
+					cm = &x.Call
+				case *ssa.Defer:
+					cm = &x.Call
+				case *ssa.Go:
+					cm = &x.Call
+				}
+				if cm == nil {
+					return
+				}
+				if b, ok := cm.Value.(*ssa.Builtin); ok && b.Name() == "close" && len(cm.Args) == 1 && strings.Contains(cm.Args[0].Type().String(), "error") {
+					closes = append(closes, p.InstrPos(in)+" in "+shortName(fn))
+				}
+			})
+		}
+		c.Check(len(closes) == 0, "C06.4", "no outcome channel is closed", p.FuncPos(cc),
+			"no close of an error channel in package server: a waiter never reads the zero value (nil = success) from a closed channel",
+			"an outcome channel is closed at "+join(closes)+": the handler waiting on it receives nil and answers success for a command that was not executed")
 		fcc := NewFlow(p, cc)
 		okDel := false
 		eachInstr(cc, func(in ssa.Instruction) {
